@@ -220,9 +220,13 @@ def tr_json(t):
     return {"digest": to_json(t.fields["digest"]), "counter": to_json(t.fields["counter"])}
 
 
+EXPLORATION_BOUNDS = True       # C17 switches the artificial exploration bounds off (loop bounds must come from validate alone)
+
+
 def b_generate_queries(h, shape):
     cfg, inp = cfg_of(h, shape)
-    h.ex.assume(zi(cfg.fields["n_queries"]) <= 3)
+    if EXPLORATION_BOUNDS:
+        h.ex.assume(zi(cfg.fields["n_queries"]) <= 3)
     dom = domains_of(h, cfg)
     tr = h.transcript()
     inp.update(tr=tr, ub=dom.fields["eval_domain_size"])
